@@ -349,6 +349,11 @@ pub unsafe fn EC_POINT_free(point: *mut EC_POINT) {
     free_obj(point)
 }
 
+/// aws-lc ec.c `EC_POINT_is_at_infinity(group, point)`: 1 iff the point is the point at infinity, else 0.
+pub unsafe fn EC_POINT_is_at_infinity(_group: *const EC_GROUP, point: *const EC_POINT) -> c_int {
+    (*point).inf as c_int
+}
+
 pub unsafe fn EC_POINT_oct2point(_group: *const EC_GROUP, point: *mut EC_POINT, buf: *const u8, len: usize, _ctx: *mut BN_CTX) -> c_int {
     if len == 0 {
         return 0;
